@@ -300,6 +300,12 @@ func (fv *FuncVC) oblige(kind string, what string, cond Term, pos token.Pos, not
 		Trivial: trivial,
 	}
 	fv.Obls = append(fv.Obls, o)
+	if kind == "check" {
+		// an `assert` clause of the contract: proved, never assumed - not by callers (it is not part of
+		// the postcondition) and not by the obligations that follow (so that a check recorded as a known
+		// finding cannot prop up anything else)
+		return o
+	}
 	if !trivial {
 		// assert-then-assume; the assumption is visible only to obligations without a property
 		// tag or with the same tag, so that each property's obligations are proved on their own
